@@ -446,8 +446,10 @@ func c18Case(r *obs.Run, i int) {
 				}
 			case s == 127:
 				r.Note(fmt.Sprint("s2p/", s), true)
-				// the "certain" sentinel must stay certain (ProbE 0) or be read as the ordinary score 127
-				if pe := got.ProbE(); pe != 0 && got != 127 {
+				// the two scores must stand for the same error probability: where Solexa 127 is the "certain" sentinel (ProbE 0,
+				// as on the pinned tree) its Phred image must be certain too; a library that reads 127 as the ordinary top
+				// score (ProbE 1/(1+10^12.7)) may answer with the ordinary Phred 127
+				if pe, ps := got.ProbE(), alphabet.Qsolexa(127).ProbE(); (ps == 0 && pe != 0) || (ps != 0 && got != 127) {
 					r.Violate("solexa-to-phred-sentinel", fmt.Sprintf("Qsolexa(127).Qphred()=%d has ProbE %g", got, pe), c18w{"s2p", s, "", got, "254 (or 127)"})
 				}
 			default:
